@@ -16,12 +16,12 @@ def run(ctx):
     binp = snapalg.build()
     run_ = snapalg.Run(ctx)
     if ctx.tier == "quick":
-        fams_laws = ["CorruptSnap", "CorruptDelta", "Registry", "TypeSweep"]
-        fams_a = ["CorruptSnap", "CorruptDelta", "BigSnap", "BigDelta", "Registry", "TypeSweep"]
+        fams_laws = ["CorruptSnap", "CorruptDelta", "Registry", "TypeSweep", "Reuse"]
+        fams_a = ["CorruptSnap", "CorruptDelta", "BigSnap", "BigDelta", "Registry", "TypeSweep", "Reuse"]
         nb, seeds, par = 600, 1, 4
     else:
-        fams_laws = ["CorruptSnap", "CorruptDelta", "BigSnap", "BigDelta", "Registry", "TypeSweep"]
-        fams_a = ["CorruptSnap", "CorruptDelta", "BigSnap", "BigDelta", "Registry", "TypeSweep"]
+        fams_laws = ["CorruptSnap", "CorruptDelta", "BigSnap", "BigDelta", "Registry", "TypeSweep", "Reuse"]
+        fams_a = ["CorruptSnap", "CorruptDelta", "BigSnap", "BigDelta", "Registry", "TypeSweep", "Reuse"]
         nb, seeds, par = 6000, 6, 8
     paths = snapalg.run_all(ctx, run_, binp, fams_laws, fams_a, "parse", nb, seeds=seeds, par=par, law_workers=2)
     if ctx.tier == "thorough" and paths:
